@@ -309,6 +309,7 @@ def merge_percentiles(finalq, qs, vals, method="lower", Ns=None, raise_on_nan=Tr
         left = np.searchsorted(combined_q, desired_q, side="left")
         right = np.searchsorted(combined_q, desired_q, side="right") - 1
         np.minimum(left, len(combined_vals) - 1, out=left)  # don't exceed max index
+        np.maximum(right, 0, out=right)  # don't wrap around below the first index
         lower = np.minimum(left, right)
         upper = np.maximum(left, right)
         if method == "lower":
